@@ -62,3 +62,8 @@ def handle : List String → String
   | _ => "bad-op"
 
 end CaddyModel.C18
+
+namespace CaddyModel.C18
+/-- counter-example lines replayed on the implementation on every run (see Witness.lean) -/
+def witnessLines : List String := []
+end CaddyModel.C18
